@@ -6660,6 +6660,11 @@ class Path(Shape, MutableSequence):
                 self[s : s + 1] = list(segment.as_circular_arcs(error=error))
 
 
+def _own_length(value):
+    """A geometry attribute that is still an unrendered Length is mutable: a copied shape gets its own."""
+    return Length(value) if isinstance(value, Length) else value
+
+
 class Rect(Shape):
     """
     SVG Rect shapes are defined in SVG2 10.2
@@ -6689,12 +6694,12 @@ class Rect(Shape):
 
     def property_by_object(self, s):
         Shape.property_by_object(self, s)
-        self.x = s.x
-        self.y = s.y
-        self.width = s.width
-        self.height = s.height
-        self.rx = s.rx
-        self.ry = s.ry
+        self.x = _own_length(s.x)
+        self.y = _own_length(s.y)
+        self.width = _own_length(s.width)
+        self.height = _own_length(s.height)
+        self.rx = _own_length(s.rx)
+        self.ry = _own_length(s.ry)
         self._validate_rect()
 
     def property_by_values(self, values):
@@ -7006,10 +7011,10 @@ class _RoundShape(Shape):
 
     def property_by_object(self, s):
         Shape.property_by_object(self, s)
-        self.cx = s.cx
-        self.cy = s.cy
-        self.rx = s.rx
-        self.ry = s.ry
+        self.cx = _own_length(s.cx)
+        self.cy = _own_length(s.cy)
+        self.rx = _own_length(s.rx)
+        self.ry = _own_length(s.ry)
 
     def property_by_values(self, values):
         Shape.property_by_values(self, values)
@@ -7417,10 +7422,10 @@ class SimpleLine(Shape):
 
     def property_by_object(self, s):
         Shape.property_by_object(self, s)
-        self.x1 = s.x1
-        self.y1 = s.y1
-        self.x2 = s.x2
-        self.y2 = s.y2
+        self.x1 = _own_length(s.x1)
+        self.y1 = _own_length(s.y1)
+        self.x2 = _own_length(s.x2)
+        self.y2 = _own_length(s.y2)
 
     def property_by_values(self, values):
         Shape.property_by_values(self, values)
